@@ -1,7 +1,7 @@
 """Which units / lemmas / Kani harnesses decide which property."""
 import importlib
 
-UNIT_MODULES = ['cbc', 'pcbc', 'ige', 'cfb', 'cfb8', 'ofb', 'belt']
+UNIT_MODULES = ['cbc', 'pcbc', 'ige', 'cfb', 'cfb8', 'ofb', 'belt', 'ctr']
 
 
 def load_units(names=None):
@@ -16,7 +16,10 @@ def load_units(names=None):
 PROP_UNITS = {
     'C02': ['cbc', 'pcbc', 'ige'],
     'C03': ['cfb', 'cfb8', 'ofb'],
+    'C04': ['ctr'],
     'C06': ['belt'],
+    'C10': ['ctr', 'belt'],
+    'C11': ['ctr', 'belt'],
 }
 
 
